@@ -23,7 +23,7 @@ EXTENDS Selective, IOUtils
 
 Trace == JsonDeserialize(IOEnv.TRACE_FILE)
 VARIABLE n
-tvars == <<pat, fan, own, async, pos, na, nb, j, out, pending, fs, phase, n>>
+tvars == <<pat, fan, own, async, xs, pos, na, nb, j, out, pending, fs, phase, cutdone, n>>
 
 Ev == Trace[n]
 More == n <= Len(Trace)
@@ -31,14 +31,15 @@ Accept == /\ TLCSet(1, IF TLCGet(1) > n THEN TLCGet(1) ELSE n)
           /\ n' = n + 1
 
 TInit == /\ Trace[1].ev = "begin"
-         /\ InitWith(Trace[1].pat, Trace[1].fan, Trace[1].own, Trace[1].async)
+         /\ InitWith(Trace[1].pat, Trace[1].fan, Trace[1].own, Trace[1].async,
+                     [bobj |-> Trace[1].bobj, cut |-> Trace[1].cut, kind |-> Trace[1].kind])
          /\ n = 2 /\ TLCSet(1, 1)
 
 TIn == /\ More /\ Ev.ev = "in"
        /\ Consume /\ pat[pos'] = Ev.sel
        /\ Accept
 TOutU == /\ More /\ Ev.ev = "out" /\ Ev.k = "u"
-         /\ PassUnselected /\ Ev.i = nb
+         /\ PassUnselected /\ Ev.i = xs.bobj[nb]
          /\ Accept
 TOutS == /\ More /\ Ev.ev = "out" /\ Ev.k = "s" /\ Ev.i \in 1..NRef
          /\ (EmitSel \/ Flush(Ev.i))
@@ -53,15 +54,20 @@ TEnd == /\ More /\ Ev.ev = "end"
         /\ Ev.fsok /\ Ev.mutated = <<>>
         /\ Finish
         /\ Accept
-TSilent == /\ (PollDone \/ DoneSel \/ Launch \/ EndInput)
+\* [ev |-> "rerun", kind]: run() of the same element object was called again
+TRerun == /\ More /\ Ev.ev = "rerun" /\ Ev.kind = xs.kind
+          /\ (StartSecond \/ Abort)
+          /\ Accept
+TSilent == /\ (PollDone \/ DoneSel \/ Launch \/ EndInput \/ EndFirstRun)
            /\ n' = n
 TRestart == /\ More /\ Ev.ev = "begin" /\ phase = "done"
             /\ pat' = Ev.pat /\ fan' = Ev.fan /\ own' = Ev.own /\ async' = Ev.async
+            /\ xs' = [bobj |-> Ev.bobj, cut |-> Ev.cut, kind |-> Ev.kind] /\ cutdone' = FALSE
             /\ pos' = 0 /\ na' = 0 /\ nb' = 0 /\ j' = 0
             /\ out' = <<>> /\ pending' = {} /\ fs' = {} /\ phase' = "idle"
             /\ Accept
 
-TNext == TIn \/ TOutU \/ TOutS \/ TFs \/ TEnd \/ TSilent \/ TRestart
+TNext == TIn \/ TOutU \/ TOutS \/ TFs \/ TEnd \/ TSilent \/ TRestart \/ TRerun
 TSpec == TInit /\ [][TNext]_tvars
 
 Accepted == /\ PrintT(<<"ACCEPTED", TLCGet(1)>>)
